@@ -538,11 +538,16 @@ def narrow_set(m, cfg, v, good_set, mk_ok, mk_err):
         sg = v.single()
         if v.is_const():
             return mk_ok(v) if iv_and(((v.c, v.c),), good_set) else mk_err()
-        if sg and sg[1] == 1:
+        if sg:
             s, k, c = sg
             rng = st.ranges[s]
-            shifted = tuple((a - c, b - c) for a, b in good_set)
-            good = iv_and(rng, shifted)
+            from .absint import solve_cmp
+            good = []
+            for ga, gb in good_set:
+                for a, b in rng:
+                    for g1, g2 in solve_cmp('Ge', k, c - ga, a, b):
+                        good.extend(solve_cmp('Le', k, c - gb, g1, g2))
+            good = iv_norm(good)
             bad = iv_sub(rng, good)
             alts = []
             if good:
